@@ -47,6 +47,8 @@ type FuncContract struct {
 	Trusted      bool // assumed, not verified (ext files, or `trusted` directive)
 	NoPanic      bool
 	Safety       bool
+	SafetyOff    bool
+	SafetyKinds  map[string]bool
 	Pure         bool
 	InlineAlways bool
 	Src          string
@@ -620,7 +622,16 @@ func (db *ContractDB) parseFile(path, pkgPath string, trusted bool) error {
 			case "nopanic":
 				cur.NoPanic = true
 			case "safety":
-				cur.Safety = rest != "off"
+				// `safety on` (all run-time checks incl. nil dereference), `safety off` (none), or a list of kinds:
+				// `safety bounds divzero typeassert nilmap makeslice`
+				cur.Safety = rest == "on" || rest == ""
+				cur.SafetyOff = rest == "off"
+				if !cur.Safety && !cur.SafetyOff {
+					cur.SafetyKinds = map[string]bool{}
+					for _, k := range strings.Fields(strings.ReplaceAll(rest, ",", " ")) {
+						cur.SafetyKinds[k] = true
+					}
+				}
 			case "pure":
 				cur.Pure = true
 			case "inline":
